@@ -341,7 +341,8 @@ theorem ThreadInv.new (g : GB) (proc : Nat) (tid : IdStr) (start : Nat) (main : 
       rfl, rfl, rfl, rfl, rfl, rfl, rfl, rfl, fun _ hx => (nomatch hx), fun _ hx => (nomatch hx),
       fun _ hx => (nomatch hx), List.nodup_nil,
       ⟨by intro j fk hj; simp at hj, by intro i k hk; simp at hk⟩⟩
-  · exact ⟨rfl, rfl, rfl, fun _ hx => (nomatch hx), fun _ hx => (nomatch hx), fun _ hx => (nomatch hx)⟩
+  · exact ⟨rfl, rfl, rfl, fun _ hx => (nomatch hx), fun _ hx => (nomatch hx), fun _ hx => (nomatch hx),
+      fun _ hx => (nomatch hx), by intro j l a hl; simp at hl⟩
   · exact ⟨rfl, fun _ hx => (nomatch hx), (by intro i q hq; simp at hq), fun _ hx => (nomatch hx), StCanon.empty⟩
   · exact ⟨rfl, rfl, rfl, rfl, fun _ hx => (nomatch hx), fun _ hx => (nomatch hx), fun _ hx => (nomatch hx),
       ⟨rfl, rfl⟩⟩
